@@ -53,6 +53,7 @@ pub fn run_c16(ctx: &Ctx) -> i32 {
     files.sort();
     let mut games_total = 0u64;
     let mut plies_total = 0u64;
+    let mut beyond: Vec<Pos> = Vec::new();
     for f in &files {
         let text = std::fs::read_to_string(f).expect("book file is not UTF-8");
         for g in read_games(&text) {
@@ -73,11 +74,17 @@ pub fn run_c16(ctx: &Ctx) -> i32 {
                 ctx.note(format!("{}:{} game starts from a set-up position", f.display(), g.line));
                 continue;
             }
-            for tok in g.moves.iter().take(PLIES) {
+            for (ply, tok) in g.moves.iter().take(PLIES + 6).enumerate() {
                 match read_san(&p, tok) {
                     Ok((m, n)) => {
-                        plies_total += 1;
-                        expected.entry(identity(&p)).or_insert_with(|| (p.clone(), BTreeSet::new())).1.insert(m);
+                        if ply < PLIES {
+                            plies_total += 1;
+                            expected.entry(identity(&p)).or_insert_with(|| (p.clone(), BTreeSet::new())).1.insert(m);
+                        } else {
+                            // positions after the tenth ply: the book must not know them
+                            // (unless they transpose into a recorded position)
+                            beyond.push(p.clone());
+                        }
                         p = n;
                     }
                     Err(e) => {
@@ -160,6 +167,24 @@ pub fn run_c16(ctx: &Ctx) -> i32 {
             });
         }
     });
+
+    // 2b. game positions after the tenth ply
+    {
+        beyond.sort_by(|a, b| a.key().cmp(&b.key()));
+        beyond.dedup_by(|a, b| a.key() == b.key());
+        ctx.add("positions_beyond_ply_10", beyond.len() as u64);
+        let mut l = Local::default();
+        for p in &beyond {
+            l.inc("lookups");
+            if !expected.contains_key(&identity(p)) {
+                if let Some(set) = offered(&book, p) {
+                    ctx.violation("book-offers-move-for-unrecorded-position", p.fen(), json!({"fen": p.fen(), "offered": set.iter().map(|m| m.lan()).collect::<Vec<_>>(), "how_reached": "game position after the tenth ply"}));
+                    break;
+                }
+            }
+        }
+        ctx.merge(l);
+    }
 
     // 3. other positions: BFS from the start position, castling families
     let mut states = expected.len() as u64;
